@@ -5,10 +5,12 @@ import re
 import time
 from vlib import core
 from checks import c01_sig as S
+from checks import c01_frag as F
 
 META = {
     "claimed": False,
     "harness_bins": ["c01"],
+    "extract": "C01.v",
     "technique": "Coq: (T0) generated primop tables theorem, (T1) type safety of a declarative type system by a fuel-indexed logical relation; tie: typed program generator + direct oracle on the real interpreter",
     "level_text": "in progress",
     "level_note": "in progress",
@@ -99,15 +101,97 @@ def t0_search(ck, info):
     ck.log("T0 search: %d candidate witness programs, none typechecks-and-fails (%s)" % (len(cands), [o[:60] for o in out[:3]]))
 
 
+def fragment_stream(ck, exe_model, n, max_size):
+    """Programs inside the theorem's fragment: real interpreter vs extracted evaluator, certificates
+    through the extracted check_deriv, real typechecker's resolved types vs certificate types, and
+    the direct oracle on the implementation."""
+    exe = core.harness_bin("c01")
+    rng = core.SplitMix64(ck.seed * 1000003 + 101)
+    progs = [F.gen_program(rng.fork(), rng.range(3, max_size)) for _ in range(n)]
+    t0 = time.time()
+    impl = S.run_robust(exe, ["ev,full\t" + S.esc(p["src"]) for p in progs])
+    tcs = S.run_robust(exe, ["tc\t" + S.esc(p["src"]) for p in progs], shards=max(1, core.NPROC // 4))
+    ck.coverage["fragment_impl_s"] = round(time.time() - t0, 1)
+    rc, model, err = core.run_sharded(exe_model, [], [p["sexp"] for p in progs])
+    rc2, certs, err2 = core.run_sharded(exe_model, ["cert"], ["%s\t%s\t%s" % (p["cert"], F.ty_sexp(p["type"]), p["sexp"]) for p in progs])
+    if rc or rc2:
+        ck.obligation("fragment:model-run", "internal", False, "rc=%s/%s %s %s" % (rc, rc2, err[-300:], err2[-300:]))
+        return
+    compared = 0
+    for p, a, b, ce, tc in zip(progs, impl, model, certs, tcs):
+        ic = F.canon_impl(a)[0]
+        mc, _, mo = F.canon_model(b)
+        ck.case(key=p["src"], nontrivial=len(p["features"]) >= 3)
+        ck.hist("fragment_impl_outcome", ic)
+        ck.hist("fragment_size_features", min(len(p["features"]), 12))
+        for f in p["features"]:
+            ck.hist("fragment_constructs", f)
+        ck.hist("fragment_certificate", ce)
+        rep = {"program": p["src"], "model_term": p["sexp"], "certificate": p["cert"], "impl_outcome": a[:400],
+               "model_outcome": b[:200], "how_to_replay": "./verif check C01 --replay <this file>"}
+        # 1. direct oracle on the implementation
+        verdict, detail = F.direct_oracle(p, a)
+        ck.hist("fragment_direct_oracle", verdict)
+        if verdict == "violation":
+            ck.violation("fragment:%s" % ic, "accepted typed program of the fragment: " + detail, rep)
+            continue
+        if verdict == "crash":
+            ck.hist("crash_or_panic", a[:80])
+        # 2. certificate: the program is declaratively typable (extracted check_deriv, erasure = the term run)
+        if ce != "CERT ok":
+            ck.obligation("correspondence:certificate", "correspondence", False,
+                          "%s for\n%s\n%s" % (ce, p["src"], p["cert"][:600]))
+        # 3. the real typechecker: accepts, and its resolved types agree with the certificate's
+        if verdict == "rejected":
+            ck.hist("fragment_rejected_by_typechecker", a[:60])
+            ck.count("fragment_rejected")
+            continue
+        ok, terms, idents = S.parse_tc(tc)
+        if ok:
+            k, mism = F.compare_with_tc(p, terms)
+            compared += k
+            if mism:
+                ck.obligation("correspondence:typechecker-types", "correspondence", False,
+                              "%s\n%s" % (p["src"], "\n".join(mism[:3])))
+        else:
+            ck.obligation("correspondence:typechecker-visit", "correspondence", False, "ev accepted but tc said %s for %s" % (tc[:100], p["src"]))
+        # 4. outcomes: model vs implementation
+        if not F.agree(a, b):
+            if ic != "OK" and mc != "OK" and p["err_sources"] > 1:
+                ck.count("fragment_two_error_sources_different_order")
+            else:
+                ck.obligation("correspondence:evaluator-vs-interpreter", "correspondence", False,
+                              "%s\nimpl  %s\nmodel %s" % (p["src"], a[:300], b[:200]))
+        elif ic in F.DYN_TYPE_ERRS and mo != "untyped":
+            ck.obligation("correspondence:error-origin", "correspondence", False,
+                          "%s\nimpl  %s\nmodel %s" % (p["src"], a[:300], b[:200]))
+    ck.coverage["fragment_programs"] = n
+    ck.coverage["fragment_typechecker_node_types_compared"] = compared
+    rej = ck.stats.get("fragment_rejected", 0)
+    ck.coverage["fragment_acceptance_rate"] = round(1 - rej / max(1, n), 3)
+    ck.obligation("fragment generator: the typechecker accepts >= 90% of the certified programs", "generator",
+                  rej <= n // 10, "rejected %d of %d" % (rej, n))
+    for p, a, b in list(zip(progs, impl, model))[:4]:
+        ck.sample({"program": p["src"][:400], "impl": a[:120], "model": b[:120]})
+
+
 def run(ck):
     ok = ck.harness(["c01"])
     info = t0_tables(ck) if ok else None
-    coq_ok = ck.coq("Props.C01", clean=False)
+    coq_ok = ck.coq("Props.C01", clean=(ck.tier == "thorough"))
     if info is not None and (info["fails"] or not coq_ok):
         t0_search(ck, info)
-    ck.coverage["rule"] = "T0: every primop x every inhabiting kind vector (type-directed representatives)"
+    exe_model = ck.model("C01.v")
+    if ok and exe_model:
+        if ck.tier == "quick":
+            fragment_stream(ck, exe_model, 500, 30)
+        else:
+            fragment_stream(ck, exe_model, 20000, 60)
+    ck.coverage["rule"] = ("T0: every primop x every inhabiting kind vector (type-directed representatives); "
+                           "fragment stream: seeded type-directed programs of the theorem's fragment (see checks/c01_frag.py)")
     ck.trusted += ["harness bin c01 (typecheck_visit visitor, eval with positions)", "checks/c01_sig.py translators",
-                   "representatives stand for their run-time kind"]
+                   "representatives stand for their run-time kind", "extraction: ExtrOcamlBasic + ExtrOcamlNativeString",
+                   "ocaml/c01/driver.ml (s-expression reader, printer)", "checks/c01_frag.py (generator, Nickel printer, span bookkeeping)"]
 
 
 def replay(ck, path):
